@@ -597,12 +597,16 @@ where
         "vec0_bot" => mk().with(Vec::<RecLayer>::new()).with(l(1)).with(l(2)),
         "vec0_top1" => mk().with(l(1)).with(Vec::<RecLayer>::new()),
         "none_top1" => mk().with(l(1)).with(None::<RecLayer>),
+        "none_bot1" => mk().with(None::<RecLayer>).with(l(1)),
+        "vec0_bot1" => mk().with(Vec::<RecLayer>::new()).with(l(1)),
         "box_none" => mk().with(l(1)).with(Box::new(None::<RecLayer>)),
         "reload_none" => mk().with(l(1)).with(reload::Subscriber::new(None::<RecLayer>).0),
         "vec_none" => mk().with(l(1)).with(vec![None::<RecLayer>]),
         "pair_none_o" => mk().with(l(1).and_then(None::<RecLayer>)),
         "pair_none_i" => mk().with(Subscribe::and_then(None::<RecLayer>, l(1))),
         "box_vec0" => mk().with(l(1)).with(Box::new(Vec::<RecLayer>::new())),
+        "pair_none_mid" => mk().with(l(1)).with(l(2).and_then(None::<RecLayer>)).with(l(3)),
+        "pair_vec0_mid" => mk().with(l(1)).with(l(2).and_then(Vec::<RecLayer>::new())).with(l(3)),
         // trees
         "vec3" => mk().with(vec![l(1), l(2), l(3)]),
         "pair2" => mk().with(l(1).and_then(l(2))),
@@ -755,6 +759,9 @@ fn macro_case(name: &str, env: &Env, behs: &[Arc<Beh>]) -> Option<Value> {
         "pair_none_i" => mk().with(Subscribe::and_then(None::<RecLayer>, l(1))),
         "box_none" => mk().with(l(1)).with(Box::new(None::<RecLayer>)),
         "reload_none" => mk().with(l(1)).with(reload::Subscriber::new(None::<RecLayer>).0),
+        "pair_none_mid" => mk().with(l(1)).with(l(2).and_then(None::<RecLayer>)).with(l(3)),
+        "pair_vec0_mid" => mk().with(l(1)).with(l(2).and_then(Vec::<RecLayer>::new())).with(l(3)),
+        "pair2" => mk().with(l(1).and_then(l(2))),
     }
 }
 
@@ -816,7 +823,16 @@ fn main() {
                 if l.is_empty() {
                     continue;
                 }
-                println!("{}", run_line(l));
+                // one fresh thread per case: `Filtered`'s per-thread filter state (FILTERING) must not leak from one case
+                // into the next (an `enabled` probe on a Filtered stack leaves bits behind: F3, C07's business)
+                let owned = l.to_string();
+                let out = std::thread::Builder::new()
+                    .stack_size(16 << 20)
+                    .spawn(move || run_line(&owned))
+                    .ok()
+                    .and_then(|h| h.join().ok())
+                    .unwrap_or_else(|| json!({"id": null, "panic": "case thread died"}));
+                println!("{}", out);
             }
         }
     }
